@@ -779,6 +779,57 @@ def r06_7(prog, rep):
                  ">= 16 change notices keeps his old queue file, and the cancelled task is scheduled again after a restart")
 
 
+def r06_9(prog, rep):
+    """The change list saturates: add_chkpnt() records a user only while the counter is below the list's capacity, so the counter never
+    exceeds the capacity.  The all-users dump that makes up for dropped notices must therefore be triggered AT the capacity."""
+    rid = "R06.9"
+    from ..absw import eval_in
+    add = prog.fn("add_chkpnt", DAEMON)
+    cap = None
+    ctr = None
+    for b in add.cfg.blocks:
+        c = add.cfg.cond(b)
+        if c is None:
+            continue
+        for a in cond_atoms(c, True):
+            if len(a) == 5 and a[0] == "<":
+                v = const_eval(add, a[4])
+                if v is not None:
+                    cap, ctr = v, a[1]
+    if cap is None:
+        raise AnalysisBroken("R06.9: add_chkpnt no longer guards the counter with a constant capacity")
+    ck = prog.fn("chkpnt", DAEMON)
+    cfg = ck.cfg
+    trig = None
+    for b in cfg.blocks:
+        c = cfg.cond(b)
+        if c is None:
+            continue
+        for si, sb in enumerate(cfg.blocks[b].succs):
+            if sb is None:
+                continue
+            hits, _ = forward_scan(cfg, (sb, -1), lambda bb, ii, x: "hit" if elem_has_call(x, "chkpnta") else ("stop" if elem_has_call(x, "chkpnt1") else None))
+            other = cfg.blocks[b].succs[1 - si] if len(cfg.blocks[b].succs) == 2 else None
+            if hits and other is not None:
+                h2, _ = forward_scan(cfg, (other, -1), lambda bb, ii, x: "hit" if elem_has_call(x, "chkpnta") else None)
+                if not h2:
+                    trig = (b, si, c)
+    if trig is None:
+        rep.fail(rid, "chkpnt/full-dump-trigger", ck.loc(), "no branch of chkpnt() selects the all-users dump")
+        return
+    b, si, c = trig
+    v = eval_in({ctr: cap}, c, ck)
+    key = "chkpnt/full-dump-trigger"
+    if v is None:
+        rep.broken_("rule=R06.9 cannot evaluate the dump trigger `%s` at %s = %d" % (show(c), ctr, cap))
+    elif bool(v) == (si == 0):
+        rep.ok(rid, key, ck.loc(cfg.blocks[b].elems[-1].get("line")), "with %s == %d (the most add_chkpnt() lets it reach) `%s` selects the all-users dump" % (ctr, cap, show(c)))
+    else:
+        rep.fail(rid, key, ck.loc(cfg.blocks[b].elems[-1].get("line")),
+                 "add_chkpnt() stops counting at %s == %d, but `%s` selects the all-users dump only beyond that: the dump never runs, and every "
+                 "user whose notice was dropped from the full list is never checkpointed - not even at a clean shutdown" % (ctr, cap, show(c)))
+
+
 def r06_8(prog, rep):
     """Values read from the per-user slot array are current: a local initialised from `snds[i].f` is not used as a call argument after
     the index has moved on (must-fact `v is snds[i]`, killed by any write to the index or to v).  Locals are told apart by declaration."""
@@ -865,6 +916,8 @@ def run(prog, rep, tier, snap):
     rep.call(r06_7, prog, rep)
     rep.rule("R06.8", "values read from the per-user slot array are not used after the index has moved on", 2)
     rep.call(r06_8, prog, rep)
+    rep.rule("R06.9", "the all-users dump is triggered at the capacity at which the change list saturates", 1)
+    rep.call(r06_9, prog, rep)
     from ..rules import valist
     rep.rule("R06.6", "the buffered writer never formats from a consumed va_list (records larger than the write buffer)", 1)
     valist.r_valist(prog, rep, "R06.6", only=("fdprintf",))
